@@ -308,36 +308,66 @@ def score_strategy():
 
 
 def run_exitq(case, v):
-    """Exit actions: private queue drained exactly like Process._shutdown
-    (`while not q.empty(): q.pop()[1]()`), with removals before the drain."""
+    """Exit actions: the library's own shutdown (`main._shutdown()`) drains a
+    queue that the case filled (the library's real queue and its ShutDown
+    actions are put aside meanwhile). Actions may register or remove other
+    actions while the shutdown runs: everything registered when its turn
+    comes is run, in priority order, first-in-first-out among equals."""
+    import atexit
+    from sc3.base import systemactions as sac
+    ops, during = case['ops'], case.get('during', {})
     q = TaskQueue()
     ran = []
     fns = {}
-    m = Model()
-    for op in case:
+
+    def fn_of(name):
+        if name not in fns:
+            def fn(n=name):
+                ran.append(n)
+                for eff in during.get(n, ()):
+                    real(eff)
+            fns[name] = fn
+        return fns[name]
+
+    def real(op):
         if op[0] == 'add':
-            _, p, name = op
-            fn = fns.setdefault(name, (lambda n: (lambda: ran.append(n)))(name))
-            q.add(p, fn)
-            m.add(p, name)
+            q.add(op[1], fn_of(op[2]))
+        elif op[1] in fns:
+            q.remove(fns[op[1]])
         else:
-            _, name = op
-            if name in fns:
-                q.remove(fns[name])
-            else:
-                q.remove(lambda: None)
-            m.remove(name)
-    guard = 0
-    while not q.empty():
-        q.pop()[1]()
-        guard += 1
-        if guard > 100:
-            break
-    exp = [t for _, _, t in m.sorted()]
-    v.check(ran == exp, 'exit_order', lambda: f'ran {ran} expected {exp}')
+            q.remove(lambda: None)
+
+    def model(m, op):
+        if op[0] == 'add':
+            m.add(op[1], op[2])
+        else:
+            m.remove(op[1])
+
+    m = Model()
+    for op in ops:
+        real(op)
+        model(m, op)
     ps = [x[0] for x in m.items]
-    return {'nontrivial': len(set(ps)) < len(ps) and
-            any(o[0] == 'remove' for o in case), 'labels': []}
+    # reference drain: take the earliest entry, run it, apply its effects
+    exp = []
+    while m.items and len(exp) < 100:
+        _, _, name = m.sorted()[0]
+        m.remove(name)
+        exp.append(name)
+        for eff in during.get(name, ()):
+            model(m, eff)
+    owner = next(k for k in type(main).__mro__ if '_atexitq' in vars(k))
+    saved_q, saved_sd = owner._atexitq, sac.ShutDown._actions
+    owner._atexitq, sac.ShutDown._actions = q, {}
+    try:
+        main._shutdown()
+    finally:
+        owner._atexitq, sac.ShutDown._actions = saved_q, saved_sd
+        atexit.register(main._shutdown)
+    v.check(ran == exp, 'exit_order', lambda: f'ran {ran} expected {exp}')
+    nt = len(set(ps)) < len(ps) and any(o[0] == 'remove' for o in ops)
+    labels = ['registers_during_shutdown'] if during else []
+    return {'nontrivial': nt or bool(during), 'labels': labels}
 
 
 def exitq_strategy():
@@ -346,7 +376,14 @@ def exitq_strategy():
     op = st.one_of(st.tuples(st.just('add'), prio, name),
                    st.tuples(st.just('add'), prio, name),
                    st.tuples(st.just('remove'), name)).map(list)
-    return st.lists(op, min_size=1, max_size=20)
+    late = st.sampled_from(['g0', 'g1', 'g2'])      # never run effects
+    eff = st.one_of(st.tuples(st.just('add'), prio, late),
+                    st.tuples(st.just('remove'), name),
+                    st.tuples(st.just('remove'), late)).map(list)
+    return st.fixed_dictionaries({
+        'ops': st.lists(op, min_size=1, max_size=20),
+        'during': st.one_of(st.just({}), st.dictionaries(
+            name, st.lists(eff, min_size=1, max_size=2), max_size=3))})
 
 
 # --- stage: nrt_reset ---------------------------------------------------------------
